@@ -839,6 +839,10 @@ func normalise(prog *ssa.Program) (map[*ssa.Function]bool, *ssa.VerifNorm, []str
 		}
 	}
 	norm.ReadOnlyTable = func(g *ssa.Global) bool { return roTable[g] }
+	norm.IsGlueStruct = func(t types.Type) bool {
+		n, ok := t.(*types.Named)
+		return ok && n.Obj().Pkg() != nil && GlueStruct[n.Obj().Pkg().Path()+"."+n.Obj().Name()]
+	}
 	for _, fn := range fns {
 		if absorbable[fn] {
 			continue // only ever seen through its callers
